@@ -10,6 +10,7 @@ R15.3 no direct call from a TU into a function compiled with more ISA flags
       (presumption must agree with compile flags).
 R15.6 each level is only selected after the CPUID bits of every ISA extension
       its kernels were compiled with have been tested.
+R15.4 twin kernels saturate what they store to the same range (see below).
 """
 from .. import sx, cfg as cfgm, templates as T
 from ..facts import flatten
@@ -22,10 +23,13 @@ EXPLANATION = (
     'non-NULL; R15.2 the largest value opus_select_arch_impl can return indexes an initialised entry and every table '
     'use masks the index; R15.3 no direct call into a TU compiled with more ISA flags than the caller; R15.6 a level '
     'is returned only after CPUID tests of every extension its kernels need (leaf/register/bit table in the checker). '
-    'NOT decided: bit-identity or numerical closeness of any SIMD kernel to its C counterpart - a run-time relation '
+    'R15.4 a necessary condition of bit-identity on extreme data: where a C kernel and its SIMD twin both saturate what they '
+    'store into a 8/16-bit array, they saturate to the same range (interval analysis of the scalar store, saturation of the pack '
+    'intrinsic followed through min/max with constants and lane shuffles). '
+    'NOT decided: bit-identity or numerical closeness of SIMD kernels to their C counterparts in general - a run-time relation '
     'over all argument shapes that static analysis of this kind cannot bound.')
 
-CONFIGS = {'quick': ['float'], 'thorough': ['float', 'fixed']}
+CONFIGS = {'quick': ['float', 'fixed'], 'thorough': ['float', 'fixed']}
 
 LEVEL_FLAGS = [set(), {'sse'}, {'sse', 'sse2'}, {'sse', 'sse2', 'sse4.1'}, {'sse', 'sse2', 'sse4.1', 'avx', 'avx2', 'fma'}]
 # architectural CPUID feature bits: extension -> (leaf, register index in {eax,ebx,ecx,edx}, bit)
@@ -37,6 +41,7 @@ def setup(rep, tier):
     rep.minimum('R15.2', 10)
     rep.minimum('R15.3', 1)
     rep.minimum('R15.6', 4)
+    rep.minimum('R15.4', 6)
 
 
 def isa_flags(prog, rel):
@@ -202,6 +207,7 @@ def check(rep, prog, tier):
         rep.holds('R15.3', '%s: %d cross-unit direct call edges' % (prog.config, nedges), None, 'callee ISA flags within caller unit flags on every edge', n=nedges)
     if nedges < 300:
         rep.unresolved('R15.3', 'only %d cross-unit call edges resolved (expected several hundred)' % nedges)
+    r15_4(rep, prog)
 
 
 def _max_arch(cf, f):
@@ -351,3 +357,209 @@ def _feature_tests(prog):
     if final is None:
         raise AnalysisBroken('opus_cpu_feature_check: no state at exit')
     return {k: (set() if v == ZERO else v) | ({('always-zero',)} if v == ZERO else set()) for k, v in final[1].items()}
+
+
+# ------------------------------------------------------------------ R15.4
+# Twin kernels must saturate to the same range.  "Bit-identical for integer kernels" fails on
+# extreme data as soon as the narrowing store of one twin clamps to [-32767, 32767] and the other's
+# to [-32768, 32767]: that is visible in the code, with no input in hand.  For every dispatch table
+# the C entry and each SIMD entry (with the static helpers of their own files) are searched for
+# stores of 8/16-bit elements into arrays; the range of each stored value is computed with all
+# inputs unknown - interval analysis of the scalar expression (clamp idioms, casts), or the
+# saturation of the pack intrinsic that produced the stored vector (followed through min/max with
+# constants and lane shuffles).  Per destination (matched by the name of the array), the union of
+# ranges of the SIMD twin must equal that of the C twin.  Only destinations where BOTH twins
+# saturate explicitly are compared (a plain wrapping cast says nothing about intended range).
+ELEM_BITS = {'opus_int16': 16, 'opus_val16': 16, 'short': 16, 'celt_norm': 16, 'celt_coef': 16, 'opus_int8': 8, 'signed char': 8, 'char': 8}
+PACK = {'_mm_packs_epi32': 16, '_mm256_packs_epi32': 16, '_mm_packs_epi16': 8, '_mm256_packs_epi16': 8}
+PASS_THROUGH = ('_mm_shuffle_', '_mm256_shuffle_', '_mm_unpack', '_mm256_unpack', '_mm256_permute', '_mm_permute', '_mm256_castsi256_si128', '_mm256_extracti128_si256',
+                '_mm256_extractf128', '_mm_castps_si128', '_mm_castsi128_ps', '_mm256_castsi128_si256', '_mm_blend', '_mm256_blend', '_mm_alignr', '_mm256_inserti128', '_mm_srli_si128', '_mm_slli_si128',
+                '_mm_bsrli', '_mm_bslli', '_mm_move_epi64')
+
+
+def _elem_bits(prog, f, root):
+    t = None
+    if sx.kind(root) == 'param':
+        t = f.params[root[1]]['type']
+    elif sx.kind(root) == 'local':
+        l = f.locals.get(root[2])
+        t = l['type'] if l else None
+    elif sx.kind(root) == 'field':
+        rf = prog.record(root[2]) if root[2] in prog.records else None
+        if rf:
+            for fl in rf['fields']:
+                if fl['name'] == root[3]:
+                    t = fl['type']
+    if not t:
+        return None
+    t = t.replace('const', '').replace('OPUS_RESTRICT', '').replace('restrict', '').replace('*', ' ').replace('[', ' ').strip().split()
+    if not t:
+        return None
+    b = ELEM_BITS.get(t[0])
+    if b == 16 and t[0] in ('opus_val16', 'celt_norm', 'celt_coef') and 'FIXED_POINT' not in prog.macros:
+        return None
+    return b
+
+
+def _root_name(e):
+    e = sx.strip(e)
+    while True:
+        k = sx.kind(e)
+        if k in ('idx',):
+            e = sx.strip(e[1])
+        elif k == 'addr' or k == 'deref':
+            e = sx.strip(e[1])
+        elif k == 'bin' and e[1] in ('+', '-'):
+            e = sx.strip(e[2])
+        elif k == 'cast':
+            e = sx.strip(e[-2]) if isinstance(e[-1], dict) else sx.strip(e[-1])
+        else:
+            break
+    if k == 'param':
+        return e, e[2]
+    if k == 'local':
+        return e, e[1]
+    if k == 'field':
+        return e, e[3]
+    return None, None
+
+
+def _closure(prog, f):
+    out, work = [], [f]
+    while work:
+        g = work.pop()
+        if g in out:
+            continue
+        out.append(g)
+        for c in g.calls():
+            h = prog.resolve_in(g, sx.callee_name(c) or '')
+            if h is not None and h.file == f.file and h not in out:
+                work.append(h)
+    return out
+
+
+def _vec_range(g, cg, e, pos, depth=0):
+    """(bits, lo, hi) of the lanes of a vector expression, or None"""
+    if depth > 12:
+        return None
+    e = sx.strip(e)
+    k = sx.kind(e)
+    if k == 'local':
+        cur, defs = cfgm.defs_at(cg, e[2], pos[0], pos[1])
+        res = None
+        for d in cur:
+            db, di, dn = defs[d]
+            if dn[0] != 'assign':
+                return None
+            r = _vec_range(g, cg, dn[2], (db, di), depth + 1)
+            if r is None:
+                return None
+            res = r if res is None else (r[0], min(res[1], r[1]), max(res[2], r[2])) if r[0] == res[0] else None
+            if res is None:
+                return None
+        return res
+    if k == 'call':
+        nm = sx.callee_name(e) or ''
+        if nm in PACK:
+            b = PACK[nm]
+            return (b, -(1 << (b - 1)), (1 << (b - 1)) - 1)
+        if nm in ('_mm_max_epi16', '_mm_min_epi16', '_mm256_max_epi16', '_mm256_min_epi16', '_mm_max_epi8', '_mm_min_epi8'):
+            a, b_ = e[2][0], e[2][1]
+            for x, y in ((a, b_), (b_, a)):
+                ys = sx.strip(y)
+                if sx.kind(ys) == 'call' and (sx.callee_name(ys) or '').startswith(('_mm_set1_epi', '_mm256_set1_epi')):
+                    from .. import decide
+                    c = decide.ev3(ys[2][0], {})
+                    r = _vec_range(g, cg, x, pos, depth + 1)
+                    if c is not None and r is not None:
+                        return (r[0], max(r[1], c), r[2]) if 'max' in nm else (r[0], r[1], min(r[2], c))
+            return None
+        if nm.startswith(PASS_THROUGH):
+            rs = [_vec_range(g, cg, a, pos, depth + 1) for a in e[2] if sx.int_val(a) is None]
+            rs = [r for r in rs]
+            if rs and all(r is not None for r in rs) and len({r[0] for r in rs}) == 1:
+                return (rs[0][0], min(r[1] for r in rs), max(r[2] for r in rs))
+        return None
+    return None
+
+
+def _narrow_stores(prog, f):
+    """{dest name: {'sat': set of (lo, hi) from explicit saturation, 'plain': n}} over f and its same-file helpers"""
+    from .. import absint
+    out = {}
+    for g in _closure(prog, f):
+        cg = cfgm.CFG(g)
+        an = None
+        for b, i, s_ in cg.positions():
+            for n in sx.walk(s_):
+                if n[0] == 'assign' and sx.kind(sx.strip(n[1])) in ('idx', 'deref'):
+                    root, name = _root_name(n[1])
+                    bits = _elem_bits(prog, g, root) if root is not None else None
+                    if bits is None:
+                        continue
+                    if an is None:
+                        an = absint.Analyzer(prog, g, call_summary=absint.inline_summary(prog), havoc_fields_on_call=False)
+                    st = an.state_before_node(b, i, n) if hasattr(an, 'state_before_node') else an.state_at(b, i)
+                    if st is None:
+                        continue
+                    rhs = n[2]
+                    # look through the final narrowing cast: the range BEFORE it says whether the value was saturated
+                    r0 = sx.strip_paren(rhs)
+                    inner = r0
+                    while sx.kind(inner) == 'cast':
+                        inner = sx.strip_paren(inner[-2] if isinstance(inner[-1], dict) else inner[-1])
+                    v = an.ev(inner, st)
+                    full = (-(1 << (bits - 1)), (1 << (bits - 1)) - 1)
+                    d = out.setdefault(name, {'sat': set(), 'plain': 0, 'where': []})
+                    if v and not absint.is_top(v) and absint.lo(v) >= full[0] and absint.hi(v) <= full[1] and any(sx.kind(x) == 'cond' for x in sx.walk(inner)):
+                        d['sat'].add((absint.lo(v), absint.hi(v)))
+                        d['where'].append('%s:%s' % (g.file, sx.line(n)))
+                    else:
+                        d['plain'] += 1
+                elif n[0] == 'call' and (sx.callee_name(n) or '').startswith(('_mm_store', '_mm256_store', '_mm_maskstore', '_mm256_maskstore')) and len(n[2]) >= 2:
+                    root, name = _root_name(n[2][0])
+                    bits = _elem_bits(prog, g, root) if root is not None else None
+                    if bits is None:
+                        continue
+                    r = _vec_range(g, cg, n[2][-1], (b, i))
+                    d = out.setdefault(name, {'sat': set(), 'plain': 0, 'where': []})
+                    if r is not None and r[0] == bits:
+                        d['sat'].add((r[1], r[2]))
+                        d['where'].append('%s:%s' % (g.file, sx.line(n)))
+                    else:
+                        d['plain'] += 1
+    return out
+
+
+def r15_4(rep, prog):
+    n = 0
+    for name, g in sorted(prog.globals.items()):
+        if not (g.get('pointee_func') and g.get('dims') and 'init' in g and g.get('defined')):
+            continue
+        ents = [e['addr'] for e in flatten(g['init']) if isinstance(e, dict) and e.get('isfunc')]
+        ents = list(dict.fromkeys(ents))
+        if len(ents) < 2 or not all(prog.has_fn(e) for e in ents):
+            continue
+        c0 = prog.fn(ents[0])
+        base = _narrow_stores(prog, c0)
+        for tw in ents[1:]:
+            f = prog.fn(tw)
+            rep.functions.add(f.name)
+            mine = _narrow_stores(prog, f)
+            for dest in sorted(set(base) & set(mine)):
+                a, b = base[dest], mine[dest]
+                if not a['sat'] or not b['sat']:
+                    continue
+                n += 1
+                ra = (min(x[0] for x in a['sat']), max(x[1] for x in a['sat']))
+                rb = (min(x[0] for x in b['sat']), max(x[1] for x in b['sat']))
+                inst = '%s:%s and %s saturate what they store into %s[] to the same range' % (prog.config, c0.name, f.name, dest)
+                where = b['where'][0]
+                if len(a['sat']) == 1 and len(b['sat']) == 1 and ra == rb:
+                    rep.holds('R15.4', inst, where, 'both clamp to [%d, %d]' % ra)
+                elif ra == rb and a['sat'] == b['sat']:
+                    rep.holds('R15.4', inst, where, 'same set of clamps %s' % sorted(a['sat']))
+                else:
+                    rep.violated('R15.4', inst, where, '%s clamps to %s (%s) but %s clamps to %s (%s): on saturating data the two kernels return different values, so they are not bit-identical' % (
+                        c0.name, sorted(a['sat']), a['where'][0], f.name, sorted(b['sat']), ', '.join(b['where'][:3])), key='%s:%s:%s' % (name, f.name, dest))
+    return n
